@@ -6,10 +6,11 @@
      agree  pre seen : every name in seen is the name of an anchored occurrence in pre
                        (always true: the code visits in document order)
      covers pre seen : every anchored occurrence in pre has its name in seen
-                       (needs a guard: nothing first defined inside a skipped part)
+                       (the parts the search does not enter are either walked by
+                       record_anchors, or shared objects met before: guard shared_closed)
    Part 1: generic loop lemma, classification facts, preservation of agree.
    Part 2: completeness for the visible places (guard: names_consistent).
-   Part 3: exclusion -- every report is a visible place (guards: names_consistent, exposed). *)
+   Part 3: exclusion -- every report is a visible place (guards: names_consistent, shared_closed). *)
 From Coq Require Import List Ascii String ZArith NArith Bool Arith Lia.
 From YP Require Import Outcome PyStr PyVal Doc Generated PathParser PathPrinter Searches PathsSearch
      SpecC07 PathsEnum PathsSpec.
@@ -113,6 +114,63 @@ Proof.
   - apply N.eqb_eq; auto.
   - apply N.eqb_eq; auto.
 Qed.
+
+(* ---- record_anchors: the walk that only feeds seen_anchors ---- *)
+Lemma note_agree pre seen x : agree pre seen -> agree (pre ++ self_occ x) (note_anchor x seen).
+Proof.
+  intros H. unfold note_anchor, self_occ. destruct (get_node_anchor x) as [name|] eqn:En.
+  - destruct (mem_string name seen); [apply agree_app; auto|].
+    intros a Hin. apply in_app_iff in Hin. destruct Hin as [Hin|[<-|[]]].
+    + destruct (H a Hin) as [y [Hy E]]. exists y. split; auto. apply in_or_app; auto.
+    + exists x. split; auto. apply in_or_app. right. left. reflexivity.
+  - rewrite app_nil_r. auto.
+Qed.
+
+Lemma note_covers pre seen x : covers pre seen -> covers (pre ++ self_occ x) (note_anchor x seen).
+Proof.
+  intros H. unfold note_anchor, self_occ. destruct (get_node_anchor x) as [name|] eqn:En.
+  - destruct (mem_string name seen) eqn:Em.
+    + apply mem_string_iff in Em. intros y a Hy E. apply in_app_iff in Hy. destruct Hy as [Hy|[<-|[]]]; [eauto|]. congruence.
+    + intros y a Hy E. apply in_app_iff in Hy. apply in_or_app. destruct Hy as [Hy|[<-|[]]].
+      * left. eauto.
+      * right. left. congruence.
+  - rewrite app_nil_r. auto.
+Qed.
+
+Section Record.
+Variable Inv : list node -> list string -> Prop.
+Hypothesis Hnote : forall pre seen x, Inv pre seen -> Inv (pre ++ self_occ x) (note_anchor x seen).
+
+Lemma record_inv n : forall pre seen, Inv pre seen -> Inv (pre ++ anc_occs n) (record_anchors n seen).
+Proof.
+  induction n as [i v|i kvs IH|i els IH|i els IH] using node_ind'; intros pre seen H.
+  - simpl. rewrite app_nil_r. auto.
+  - cbn [record_anchors anc_occs]. revert pre seen H. induction kvs as [|[k v] r IHr]; intros pre seen H.
+    + simpl. rewrite app_nil_r. auto.
+    + inversion IH as [|? ? [_ Hv] Hr]; subst. cbn [flat_map fst snd].
+      replace (pre ++ (self_occ k ++ self_occ v ++ anc_occs v) ++
+               flat_map (fun kv => self_occ (fst kv) ++ self_occ (snd kv) ++ anc_occs (snd kv)) r)%list
+        with ((((pre ++ self_occ k) ++ self_occ v) ++ anc_occs v) ++
+              flat_map (fun kv => self_occ (fst kv) ++ self_occ (snd kv) ++ anc_occs (snd kv)) r)%list
+        by (rewrite <- !app_assoc; reflexivity).
+      apply IHr; auto.
+  - cbn [record_anchors anc_occs]. revert pre seen H. induction els as [|e r IHr]; intros pre seen H.
+    + simpl. rewrite app_nil_r. auto.
+    + inversion IH as [|? ? He Hr]; subst. cbn [flat_map].
+      replace (pre ++ (self_occ e ++ anc_occs e) ++ flat_map (fun e0 => self_occ e0 ++ anc_occs e0) r)%list
+        with (((pre ++ self_occ e) ++ anc_occs e) ++ flat_map (fun e0 => self_occ e0 ++ anc_occs e0) r)%list
+        by (rewrite <- !app_assoc; reflexivity).
+      apply IHr; auto.
+  - cbn [record_anchors anc_occs]. clear IH. revert pre seen H. induction els as [|e r IHr]; intros pre seen H.
+    + simpl. rewrite app_nil_r. auto.
+    + cbn [flat_map fold_left]. rewrite app_assoc. apply IHr. auto.
+Qed.
+End Record.
+
+Lemma record_agree n pre seen : agree pre seen -> agree (pre ++ anc_occs n) (record_anchors n seen).
+Proof. apply record_inv. intros; apply note_agree; auto. Qed.
+Lemma record_covers n pre seen : covers pre seen -> covers (pre ++ anc_occs n) (record_anchors n seen).
+Proof. apply record_inv. intros; apply note_covers; auto. Qed.
 
 Section Alias.
 Variable lit : string -> outcome litres.
@@ -235,7 +293,7 @@ Definition map_body (i : info) (bp : string) (lc : loc) :=
       let ka := fst ka_s in
       let va := fst va_s in
       let seen2 := snd va_s in
-      if negb (o_kalias o) && is_excl ka then Ok ([], seen2)
+      if negb (o_kalias o) && is_excl ka then Ok ([], record_anchors val seen2)
       else
         do kres <-
           (if o_keys o then
@@ -293,9 +351,9 @@ Lemma map_body_cases i bp lc kv pos seen r :
         quiet ka /\ quiet va /\
         let tmp := (map_prefix sp bp ++ escp sp (key_text (fst kv)))%string in
         let lc' := (lc ++ [key_ref (fst kv)])%list in
-        ((negb (o_kalias o) && is_excl ka = true /\ r = ([], s2))
+        ((negb (o_kalias o) && is_excl ka = true /\ r = ([], record_anchors (snd kv) s2))
          \/ (negb (o_kalias o) && is_excl ka = false /\ o_keys o = true /\ satb (fst kv) = true /\
-             r = ([mkhit tmp lc' HKey], s2))
+             r = ([mkhit tmp lc' HKey], record_anchors (snd kv) s2))
          \/ (negb (o_kalias o) && is_excl ka = false /\ (o_keys o = false \/ satb (fst kv) = false) /\
              value_part lit re_search mt tm sp o rec va (snd kv) tmp lc' s2 = Ok r))).
 Proof.
@@ -350,6 +408,15 @@ Proof.
   rewrite Ea in E. simpl in E. exists am, s1. auto.
 Qed.
 
+(* the lone-scalar branch leaves seen_anchors alone *)
+Lemma scalar_root_seen n bp lc seen r :
+  scalar_root lit re_search tm sp o n bp lc seen = Ok r -> snd r = seen.
+Proof.
+  unfold scalar_root. destruct (negb (is_none_leaf n) && o_values o).
+  - destruct (term_matches lit re_search tm (node_hay n)) as [m| |]; simpl; intros E; inversion E; reflexivity.
+  - intros E; inversion E; reflexivity.
+Qed.
+
 (* ---- Part 1: agree is preserved (no guard) ---- *)
 Definition agree_after (v : node) : Prop :=
   forall pre bp lc seen r, agree pre seen -> sfp v bp lc seen = Ok r -> agree (pre ++ anc_occs v) (snd r).
@@ -372,7 +439,7 @@ Proof. apply firstn_all. Qed.
 Theorem sfp_agree n : agree_after n.
 Proof.
   induction n as [i v|i kvs IH|i els IH|i els IH] using node_ind'; intros pre bp lc seen r Hag E.
-  - simpl in E. inversion E; subst; simpl. rewrite app_nil_r. auto.
+  - simpl in E. rewrite (scalar_root_seen _ _ _ _ _ E). simpl. rewrite app_nil_r. auto.
   - (* mapping *)
     apply sfp_map in E.
     destruct (loop_inv (map_body i bp lc) kvs
@@ -389,8 +456,8 @@ Proof.
         pose proof (Av _ (Ak _ Hi)) as H2.
         unfold entry_occs. rewrite !app_assoc.
         destruct C as [[_ ->]|[[_ [_ [_ ->]]]|[_ [_ Evp]]]]; simpl.
-        -- apply agree_app; auto.
-        -- apply agree_app; auto.
+        -- apply record_agree; auto.
+        -- apply record_agree; auto.
         -- rewrite Forall_forall in IH. destruct (IH _ (nth_error_In _ _ Hn)) as [_ IHv].
            eapply value_part_agree; eauto.
     + simpl. rewrite app_nil_r. auto.
@@ -453,8 +520,8 @@ Proof.
     pose proof (Av _ (Ak _ Hi)) as H2.
     unfold entry_occs. rewrite !app_assoc.
     destruct C as [[_ ->]|[[_ [_ [_ ->]]]|[_ [_ Evp]]]]; simpl.
-    + apply agree_app; auto.
-    + apply agree_app; auto.
+    + apply record_agree; auto.
+    + apply record_agree; auto.
     + eapply value_part_agree'; eauto.
 Qed.
 
@@ -741,7 +808,8 @@ Definition hits_visible (pre : list node) (n : node) (lc : loc) (hs : list hit) 
 
 Definition vis_after (v : node) : Prop :=
   forall pre bp lc seen r,
-    incl (pre ++ anc_occs v) U -> agree pre seen -> covers pre seen -> exposed lit re_search tm mt o v pre = true ->
+    is_container v = true ->
+    incl (pre ++ anc_occs v) U -> agree pre seen -> covers pre seen -> shared_closed mt o v pre = true ->
     sfp v bp lc seen = Ok r ->
     covers (pre ++ anc_occs v) (snd r) /\ hits_visible pre v lc (fst r).
 
@@ -768,7 +836,7 @@ Lemma value_part_vis am v tmp lc' pre1 s s1 r :
   incl ((pre1 ++ self_occ v) ++ anc_occs v) U -> agree pre1 s -> covers pre1 s ->
   sanchor v s (o_valias o) = Ok (am, s1) -> quiet am ->
   (if negb (o_valias o) && is_repeat pre1 v then all_rep (pre1 ++ self_occ v) (anc_occs v)
-   else exposed lit re_search tm mt o v (pre1 ++ self_occ v)%list) = true ->
+   else shared_closed mt o v (pre1 ++ self_occ v)%list) = true ->
   vis_after v ->
   value_part lit re_search mt tm sp o rec am v tmp lc' s1 = Ok r ->
   covers ((pre1 ++ self_occ v) ++ anc_occs v) (snd r) /\
@@ -785,7 +853,7 @@ Proof.
   destruct (value_part_cases _ _ _ _ _ _ Q E) as [[Hs ->]|[[Hns [Hcont E']]|[Hns [Hcont [-> F]]]]]; simpl.
   - split; [|intros h []]. rewrite Hr, andb_comm in Hs. rewrite Hs in G. eapply covers_all_rep; eauto.
   - rewrite Hr, andb_comm in Hns. rewrite Hns in G.
-    destruct (IH _ _ _ _ _ Hi Ag1 Cv1 G E') as [Cv2 Hv]. split; auto.
+    destruct (IH _ _ _ _ _ Hcont Hi Ag1 Cv1 G E') as [Cv2 Hv]. split; auto.
     intros h Hin. split; [apply Hshown; rewrite Hr, andb_comm; auto|]. right. apply Hv; auto.
   - destruct (not_container_leaf _ Hcont) as [i0 [x ->]]. simpl. rewrite app_nil_r. split; auto.
     intros h Hin. split; [apply Hshown; auto|]. left.
@@ -794,7 +862,7 @@ Proof.
 Qed.
 
 Lemma seq_step_vis pre bp lc i els j e s rj :
-  incl (pre ++ anc_occs (NSeq i els)) U -> exposed lit re_search tm mt o (NSeq i els) pre = true ->
+  incl (pre ++ anc_occs (NSeq i els)) U -> shared_closed mt o (NSeq i els) pre = true ->
   nth_error els j = Some e -> vis_after e ->
   agree (pre ++ flat_map elem_occs (firstn j els)) s -> covers (pre ++ flat_map elem_occs (firstn j els)) s ->
   seq_body bp lc e j s = Ok rj ->
@@ -818,7 +886,7 @@ Lemma skip_merged_false_not_hidden i pos : skip_merged mt o (oid i) pos = false 
 Proof. unfold skip_merged, merged_hidden. intros H [H1 [H2 H3]]. rewrite H1, H2, H3 in H. discriminate. Qed.
 
 Lemma map_step_vis pre bp lc i kvs j kv s rj :
-  incl (pre ++ anc_occs (NMap i kvs)) U -> exposed lit re_search tm mt o (NMap i kvs) pre = true ->
+  incl (pre ++ anc_occs (NMap i kvs)) U -> shared_closed mt o (NMap i kvs) pre = true ->
   nth_error kvs j = Some kv -> vis_after (snd kv) ->
   agree (pre ++ flat_map entry_occs (firstn j kvs)) s -> covers (pre ++ flat_map entry_occs (firstn j kvs)) s ->
   map_body i bp lc kv j s = Ok rj ->
@@ -838,15 +906,14 @@ Proof.
     assert (Hks : negb (o_kalias o) && is_excl ka = false -> key_shown o pj k).
     { intros Hns Hv. rewrite Hv in Hns. simpl in Hns. congruence. }
     destruct C as [[Xe ->]|[[Xe [Hk [Hsat ->]]]|[Xe [Hno Evp]]]]; simpl.
-    + rewrite Xk in Xe. rewrite Xe in Gj. simpl in Gj. split; [|intros h []]. eapply covers_all_rep; eauto.
-    + rewrite <- satb_satisfiesb, Hk, Hsat in Gj. rewrite orb_true_r in Gj. simpl in Gj.
-      split; [eapply covers_all_rep; eauto|].
+    + (* an excluded aliased key: record_anchors walked the value *)
+      split; [|intros h []]. apply record_covers; auto.
+    + (* a matched key: record_anchors walked the value *)
+      split; [apply record_covers; auto|].
       intros h [<-|[]]. exists [], (key_ref k), pre, (NMap i kvs). simpl. split; auto. split; [constructor|].
       split; auto. exists k. split; auto. exists i, kvs, j, v. split; auto. split; auto. split; auto.
       split; [apply skip_merged_false_not_hidden; auto|]. apply Hks; auto.
-    + rewrite Xk in Xe. rewrite Xe in Gj. rewrite <- satb_satisfiesb in Gj.
-      assert (Hkf : o_keys o && satb k = false) by (destruct Hno as [-> | ->]; auto using andb_false_r).
-      rewrite Hkf in Gj. simpl in Gj.
+    + rewrite Xk in Xe. rewrite Xe in Gj.
       destruct (value_part_vis _ _ _ _ _ _ _ _ Hic Ag1 Cv1 Ev Qv Gj IH Evp) as [Cv Hv]. split; auto.
       intros h Hin. destruct (Hv h Hin) as [Hs [[Hl [Hval [Hsat ->]]]|[l0 [r0 [pre' [tgt [El [R L]]]]]]]].
       * exists [], (key_ref k), pre, (NMap i kvs). simpl. split; auto. split; [constructor|].
@@ -878,8 +945,8 @@ Qed.
 
 Theorem sfp_visible n : vis_after n.
 Proof.
-  induction n as [i v|i kvs IH|i els IH|i els IH] using node_ind'; intros pre bp lc seen r Hi Hag Hc G E.
-  - simpl in E. inversion E; subst; simpl. rewrite app_nil_r. split; auto. intros h [].
+  induction n as [i v|i kvs IH|i els IH|i els IH] using node_ind'; intros pre bp lc seen r Hcn Hi Hag Hc G E.
+  - discriminate Hcn.
   - apply sfp_map in E. rewrite Forall_forall in IH.
     destruct (loop_inv (map_body i bp lc) kvs
                 (fun j s => agree (pre ++ flat_map entry_occs (firstn j kvs)) s /\
